@@ -54,7 +54,12 @@ def main():
                     if k in pd._config.config._registered_options}
         except Exception:
             opts = {}
+        import random as _random
+        import hashlib as _hashlib
+        rs = np.random.get_state()
         return {"stderr": sys.stderr is my_err, "stdout": sys.stdout is my_out,
+                "np_random_state": _hashlib.md5(rs[1].tobytes() + str(rs[2]).encode()).hexdigest(),
+                "py_random_state": _hashlib.md5(repr(_random.getstate()).encode()).hexdigest(),
                 "filters": repr(warnings.filters), "np": repr(np.geterr()), "pd": opts, "cwd": os.getcwd(),
                 "locale": repr(locale.getlocale()), "env": len(os.environ), "showwarning": warnings.showwarning.__name__,
                 "relids": {str(t): id(t._relations) for t in ALL if t._relations is not None},
@@ -124,6 +129,14 @@ def main():
                 _ = traverse_graph_with_sampled_series(ts.root_node, s, ts.relation_graph, 10)
             elif k == "list":
                 _ = get_ts(op["ts"]).infer_type(["POINT (1 2)", "x"])
+            elif k == "long":
+                vals = [None] * 1500
+                for i in op["pos"]:
+                    vals[i] = "text %d" % i
+                s = pd.Series(vals, dtype=object)
+                ts = get_ts(op["ts"])
+                _ = ts.infer_type(s)
+                _ = ts.detect_type(pd.DataFrame({"a": s, "b": range(1500)}))
         except Exception as e:  # noqa
             err = type(e).__name__
         after = snapshot()
@@ -141,6 +154,23 @@ def main():
                            "dtype": str(getattr(data, "dtype", None))}
         except Exception as e:  # noqa
             probe[name] = {"raises": type(e).__name__}
+    # long, mostly-missing columns: any sampling shortcut makes these answers vary between calls and processes
+    for name, npos in (("long_sparse_1", 1), ("long_sparse_40", 40), ("long_float_one_complex", 0)):
+        if npos:
+            vals = [None] * 3000
+            for i in range(npos):
+                vals[(i * 7919 + 13) % 3000] = "word %d" % i
+        else:
+            vals = ["%d.5" % (i % 50) for i in range(3000)]
+            vals[1234] = "1+2j"
+        s = pd.Series(vals, dtype=object)
+        answers = []
+        for _ in range(4):
+            try:
+                answers.append([str(ts.detect_type(s)), str(ts.infer_type(s)), str(ts.infer_type(pd.DataFrame({"c": s}))["c"])])
+            except Exception as e:  # noqa
+                answers.append(["raises", type(e).__name__])
+        probe[name] = answers
     df = pd.DataFrame({"b": ["1", "2"], "a": [1.0, 2.0], "c": [True, False], 10: ["x", "y"], "z": ["2020-01-01", "2020-01-02"]})
     probe["frame_compare"] = [[repr(k), str(a), str(b)] for k, a, b in F.compare_detect_inference_frame(df, ts)]
     probe["frame_report"] = F.type_inference_report_frame(df, ts)
